@@ -298,3 +298,99 @@ def O3w(b):
                 b.check('dead_watcher_stops_the_operator', not alive, w, excuse='F-C20-1')
             elif how == 'runs on':
                 b.check('healthy_watchers_keep_it_running', alive, w)
+
+
+# =============================================================================================== O2a
+@harness('O2a', targets='kopf._core.reactor.orchestration.adjust_tasks',
+         props=['C01', 'C19', 'C13', 'C17', 'C03', 'C20', 'C09'],
+         prop_clauses={'C13': ['pause_toggle_follows_the_peering_crd', 'peering_spawned_for_the_found_peering_resources', 'arguments_passed_on'],
+                       'C17': ['stop_first_start_later', 'arguments_passed_on'],
+                       'C03': ['stop_first_start_later', 'arguments_passed_on'],
+                       'C20': ['stop_first_start_later'], 'C09': ['stop_first_start_later', 'arguments_passed_on']},
+         clauses=['stop_first_start_later', 'keeps_what_is_still_served', 'peering_spawned_for_the_found_peering_resources',
+                  'pause_toggle_follows_the_peering_crd', 'arguments_passed_on'],
+         canaries=['canary.always_peering', 'canary.always_paused'],
+         trusted=['terminate_redundancies by contract O2t (stops and forgets exactly the streams outside remaining_resources x '
+                  'remaining_namespaces; returns when they have ENDED)', 'spawn_missing_peerings / spawn_missing_watchers by contract '
+                  'O2 / O2w / O1 (start what is missing, keep what exists)', 'peering.guess_selectors: the selectors of the peering '
+                  'resources for these settings', 'Toggle.turn_to by contract O1u'])
+def O2a(vc):
+    """
+    orchestration.adjust_tasks -- one round of bringing the streams in line with the insights -- as an ordering trace over its
+    callees (each by its own contract):
+      stop_first_start_later   "stop the tasks first, start later -- not vice versa": terminate_redundancies is called once and has
+                               RETURNED (its streams have ended, O2t) before spawn_missing_peerings and spawn_missing_watchers are
+                               called.  A stream over a resource or namespace that is no longer served and a new stream can show the
+                               same objects (a CRD that switches its served version keeps the uids; a namespace selector that
+                               changes): started the other way round, one object has two workers at once (C01 "processed serially");
+      keeps_what_is_still_served  the terminator is told to keep exactly the watched resources plus the peering resources found, over the
+                               served namespaces plus None (cluster-scoped streams);
+      peering_spawned_for_the_found_peering_resources  spawn_missing_peerings gets exactly the peering resources that the backbone knows for the
+                               guessed selectors, over the served namespaces, with the operator's settings and identity;
+      pause_toggle_follows_the_peering_crd   ensemble.peering_missing is turned on iff peering is mandatory and no peering resource is
+                               known (docs/peering.rst: "if the peering object does not exist, the operator will pause"), before
+                               anything is started;
+      arguments_passed_on      spawn_missing_watchers gets the operator's processor and settings, the indexed and watched resources
+                               and the namespaces of the insights; every callee works on the one given ensemble.
+    """
+    from kopf._cogs.structs import references
+    PK = references.Resource('kopf.dev', 'v1', 'kopfpeerings', namespaced=True)
+    PZ = references.Resource('zalando.org', 'v1', 'kopfpeerings', namespaced=True)
+    A = references.Resource('example.com', 'v1', 'alphas', namespaced=True)
+    sel_k, sel_z = Opaque('selector:kopf.dev'), Opaque('selector:zalando.org')
+    known = [{}, {sel_k: PK}, {sel_z: PZ}, {sel_k: PK, sel_z: PZ}][vc.nondet(4, 'peering resources known to the backbone: none / kopf.dev / zalando.org / both')]
+    selectors = [[sel_k, sel_z], []][vc.nondet(2, 'guessed selectors: both / none (standalone)')]
+    mandatory = vc.bool('settings.peering.mandatory')
+    settings = Opaque('settings', peering=Opaque('peering', mandatory=mandatory))
+    watched = [set(), {A}][vc.nondet(2, 'watched resources: none / some')]
+    namespaces = [set(), {'ns1', 'ns2'}, {None}][vc.nondet(3, 'namespaces: none / two / cluster-wide')]
+    indexed = Opaque('indexed_resources')
+    insights = Opaque('insights', backbone=dict(known), watched_resources=set(watched), namespaces=set(namespaces), indexed_resources=indexed)
+    processor, identity = Opaque('processor'), Opaque('identity')
+
+    async def turn_to(v):
+        vc.emit('turn_to', v)
+        await suspend('turn_to')
+    ensemble = Opaque('ensemble', peering_missing=Opaque('peering_missing', turn_to=turn_to))
+
+    def callee(name):
+        async def stub(**kw):
+            vc.emit(name, kw)
+            await suspend(name)
+            vc.emit(name + '.returned')
+        return stub
+
+    def guess_selectors(*, settings):
+        vc.emit('guess_selectors', settings)
+        return list(selectors)
+    ld = vc.load('kopf._core.reactor.orchestration', 'adjust_tasks', stubs={
+        'peering.guess_selectors': guess_selectors,
+        'terminate_redundancies': callee('terminate'), 'spawn_missing_peerings': callee('spawn_peerings'),
+        'spawn_missing_watchers': callee('spawn_watchers')})
+    vc.drive(ld.fn(processor=processor, insights=insights, settings=settings, identity=identity, ensemble=ensemble), lambda site: None)
+    tr = vc.trace
+    names = [e[0] for e in tr]
+    idx = lambda n: names.index(n) if n in names else None
+    found = {known[s] for s in selectors if s in known}
+    # -- ordering
+    ok = all(names.count(n) == 1 for n in ('terminate', 'terminate.returned', 'spawn_peerings', 'spawn_watchers'))
+    vc.ensure('stop_first_start_later', ok and idx('terminate.returned') < idx('spawn_peerings') and idx('terminate.returned') < idx('spawn_watchers'))
+    # -- the pause toggle
+    turns = [e for e in tr if e[0] == 'turn_to']
+    vc.ensure('pause_toggle_follows_the_peering_crd', len(turns) == 1 and names.index('turn_to') < min(idx('spawn_peerings'), idx('spawn_watchers')))
+    if turns:
+        vc.ensure('pause_toggle_follows_the_peering_crd', Iff(bool(turns[0][1]) if not isinstance(turns[0][1], SBool) else turns[0][1],
+                                                            And(mandatory, not found)))
+        vc.canary('canary.always_paused', turns[0][1] if isinstance(turns[0][1], SBool) else bool(turns[0][1]))
+    vc.canary('canary.always_peering', bool(found))
+    kw_t = next((e[1] for e in tr if e[0] == 'terminate'), {})
+    kw_p = next((e[1] for e in tr if e[0] == 'spawn_peerings'), {})
+    kw_w = next((e[1] for e in tr if e[0] == 'spawn_watchers'), {})
+    vc.ensure('keeps_what_is_still_served', set(kw_t.get('remaining_resources', ())) == watched | found
+              and set(kw_t.get('remaining_namespaces', ())) == namespaces | {None} and kw_t.get('ensemble') is ensemble)
+    vc.ensure('peering_spawned_for_the_found_peering_resources', set(kw_p.get('resources', ())) == found and set(kw_p.get('namespaces', ())) == namespaces
+              and kw_p.get('settings') is settings and kw_p.get('identity') is identity and kw_p.get('ensemble') is ensemble)
+    vc.ensure('arguments_passed_on', kw_w.get('processor') is processor and kw_w.get('settings') is settings and kw_w.get('ensemble') is ensemble
+              and kw_w.get('indexed_resources') is indexed and set(kw_w.get('watched_resources', ())) == watched
+              and set(kw_w.get('watched_namespaces', ())) == namespaces)
+    return ('adjusted', sorted(r.group for r in found))
